@@ -9,6 +9,13 @@ CLAIMED = {
                   "tables are dumped and validated against the specification event by event.",
              note="Trusts TLC, the shim's projection of results to JSON, the recalled game numbering of tribes and path formats.",
              ref="5 C15"),
+ "C08": dict(cat="model_checking", tech="TLC model checking of the config-object state machine + transition-cover replay + TLC trace validation at byte level",
+             text="TextFormats.tla gives the byte grammar (render/parse) and the object under set_value; TLC checks round-trip, "
+                  "canonical reproduction, the all-and-only law of set_value and query agreement on every reachable state of a bounded "
+                  "model; one history per transition of that model, random configurations and the fixtures are executed on the real "
+                  "ConfigFile/EXL and every call's arguments and results are validated by TLC against the specification.",
+             note="Trusts TLC, gen/text.py (independent renderer), the shim's projection; quantifier limited to distinct category names and text without structural characters.",
+             ref="5 C08"),
 }
 REASON_PENDING = "check not built yet in this session (see DESIGN.md section 5); will be claimed when its trace specification exists"
 
